@@ -60,22 +60,9 @@ class World(object):
         self.violations = []
         self.app = Application()
         self.dc = self.app.data_collection
-        if scn.kind in ('image', 'profile'):
-            # 2-d numeric images, one of them with (affine) world coordinates
-            m = np.array([[2., 0., 1.], [0., 3., 2.], [0., 0., 1.]])
-            self.shape = (2, 3)
-            self.pool = {
-                'd0': Data(label='d0', x=np.arange(6.).reshape(2, 3), y=np.arange(6.)[::-1].reshape(2, 3).copy()),
-                'd1': Data(label='d1', z=np.arange(6.).reshape(2, 3) * 2, coords=AffineCoordinates(m)),
-            }
-        else:
-            # 1-d tables, one with a categorical attribute
-            self.shape = (6,)
-            self.pool = {
-                'd0': Data(label='d0', x=np.arange(6.), y=np.arange(6.)[::-1].copy(),
-                           c=np.array(['a', 'b', 'a', 'b', 'c', 'a'])),
-                'd1': Data(label='d1', z=np.arange(6.) * 2),
-            }
+        self.kind = scn.kind
+        self.shape = (2, 3) if scn.kind in ('image', 'profile') else (6,)
+        self.pool = {'d0': self.fresh('d0'), 'd1': self.fresh('d1')}
         self.cids = {'x': self.pool['d0'].id['x'], 'y': self.pool['d0'].id['y'], 'z': self.pool['d1'].id['z']}
         self.dc.append(self.pool['d0'])
         self.dc.append(self.pool['d1'])
@@ -86,6 +73,22 @@ class World(object):
         self.removed_groups = []
         self.extra = False       # extra component 'w' on d0
         self.derived = False     # derived component 'sum' on d0
+
+    def fresh(self, name):
+        """A new dataset of the pool (not attached to any hub)."""
+        from glue.core import Data
+        from glue.core.coordinates import AffineCoordinates
+        if self.kind in ('image', 'profile'):
+            # 2-d numeric images, one of them with (affine) world coordinates
+            m = np.array([[2., 0., 1.], [0., 3., 2.], [0., 0., 1.]])
+            if name == 'd0':
+                return Data(label='d0', x=np.arange(6.).reshape(2, 3), y=np.arange(6.)[::-1].reshape(2, 3).copy())
+            return Data(label='d1', z=np.arange(6.).reshape(2, 3) * 2, coords=AffineCoordinates(m))
+        # 1-d tables, one with a categorical attribute
+        if name == 'd0':
+            return Data(label='d0', x=np.arange(6.), y=np.arange(6.)[::-1].copy(),
+                        c=np.array(['a', 'b', 'a', 'b', 'c', 'a']))
+        return Data(label='d1', z=np.arange(6.) * 2)
 
     def name_of(self, data):
         for n, d in self.pool.items():
@@ -272,8 +275,13 @@ class Scenario(object):
         w.app, w.viewer, w.dc = app2, v2, app2.data_collection
         for n, d in zip(names, w.dc):
             w.pool[n] = d
-        w.cids = {'x': w.pool['d0'].id['x'], 'y': w.pool['d0'].id['y'], 'z': w.pool['d1'].id['z']} \
-            if all(w.in_dc(n) for n in ('d0', 'd1')) else w.cids
+        # datasets outside the collection belong to the old session (and hub): the restored session gets new ones
+        for n in ('d0', 'd1'):
+            if n not in names:
+                w.pool[n] = w.fresh(n)
+                w.extra = w.extra and n != 'd0'
+                w.derived = w.derived and n != 'd0'
+        w.cids = {'x': w.pool['d0'].id['x'], 'y': w.pool['d0'].id['y'], 'z': w.pool['d1'].id['z']}
         w.removed_groups = []
         w.orphans = [[n, w.dc.subset_groups[i]] for n, i in orphan_idx]
 
@@ -354,6 +362,10 @@ class Scenario(object):
             elif not any(sel is c for c in ch):
                 out.append(('picker-selection', dict(picker=name, selection=getattr(sel, 'label', None)),
                             'one of %s' % [getattr(c, 'label', None) for c in ch]))
+        if self.kind == 'image' and ref is None:
+            if st.x_att is not None or st.y_att is not None or st.x_att_world is not None or st.y_att_world is not None:
+                out.append(('image-axes', dict(x_att=getattr(st.x_att, 'label', None), y_att=getattr(st.y_att, 'label', None)),
+                            'no axes selected when the viewer holds no dataset'))
         if self.kind == 'image' and ref is not None:
             pix = list(ref.pixel_component_ids)
             x, y = st.x_att, st.y_att
@@ -499,7 +511,7 @@ def run(tier):
     total = core.Result()
     cov = dict(states=0, transitions=0, traces_validated_against_impl=0, runs=[])
     for label, scn, depth in tiers(tier):
-        ex = hist.Explorer(scn, depth, PROP, label=label)
+        ex = hist.Explorer(scn, depth, PROP, label=label, lookahead=300 if label == 'base' else 40)
         res = ex.run()
         for v in res.violations:
             v['key'] = '%s|%s|%s' % (v['clause'], label, v['key'].split('|', 1)[1])
